@@ -153,6 +153,17 @@ def gen_cases(rng, tier):
         f = rng.choice([f, f, f, 65504.0, 65519.99, 65520.0, 1e10, -1e10, 1e300, float('inf'), float('-inf'), float('nan'), -0.0, 0.0, 5e-324, 464.0, 464.25, 61440.0, 232.0, 233.0])
         yield {'op': 'encode_float', 'fmt': name, 'f': f.hex() if f == f else 'nan', 'mode': rng.choice(['saturate', 'overflow']), 'scale': rng.choice([None, None, None, 2, 0.5, 2 ** -3, 3, 49, 0.1]),
                'route': rng.choice(['kw', 'build', 'token', 'pack', 'setattr'])}
+    # float64 inputs that are NOT half-precision values, next to the midpoints between adjacent values of each format: the half-precision pre-rounding
+    # (ties to even) decides these, a direct rounding of the float64 would choose the nearer neighbour
+    for name in FMT:
+        vals = sorted({v for v, _ in finite_codes(name)})
+        mids = [float((a + b) / 2) for a, b in zip(vals, vals[1:])]
+        if tier == 'quick' and len(mids) > 40: mids = rng.sample(mids, 40)
+        for m in mids:
+            if m == 0.0: continue
+            for f in (m, math.nextafter(m, math.inf), math.nextafter(m, -math.inf), m * (1 + 2 ** -13), m * (1 - 2 ** -13), m * (1 + 2 ** -12), m * (1 - 2 ** -12), m * (1 + 2 ** -11), m * (1 - 2 ** -11)):
+                if tier == 'quick' and rng.random() < 0.5: continue
+                yield {'op': 'encode_float', 'fmt': name, 'f': f.hex(), 'mode': rng.choice(['saturate', 'overflow']), 'scale': None, 'route': rng.choice(['kw', 'build', 'token', 'pack', 'setattr'])}
     for _ in range(N // 2):
         k = rng.choice(['mxint', 'e8m0mxfp', 'bfloat', 'bfloatle'])
         if k == 'mxint':
